@@ -124,16 +124,21 @@ def random_program(rng, kind):
 
 def random_worker(jobs):
     res = {'n': 0, 'viol': [], 'samples': [], 'counts': {}, 'hist': {}}
-    for kind, rseed, policy in jobs:
+    for job in jobs:
+        kind, rseed, policy = job[:3]
+        line_level = len(job) > 3 and job[3]
         rng = random.Random(rseed)
         prog = random_program(rng, kind)
-        run = portrun.run_program(kind, [], prog, rng=rng, policy=policy)
+        run = portrun.run_program(kind, [], prog, rng=rng, policy=policy, line_level=line_level)
         res['n'] += 1
         res['counts']['random_' + kind] = res['counts'].get('random_' + kind, 0) + 1
-        case = {'kind': kind, 'rseed': rseed, 'policy': policy, 'random': True}
+        case = {'kind': kind, 'rseed': rseed, 'policy': policy, 'random': True, 'line_level': line_level}
+        if line_level:
+            res['counts']['line_level_runs'] = res['counts'].get('line_level_runs', 0) + 1
         dv = portrun.direct_verdict(run)
         if dv and len(res['viol']) < 10:
-            res['viol'].append(('ports/%s/%s' % (dv[0], kind), case, dv[1] + ' (seeded %s schedule)' % policy))
+            res['viol'].append(('ports/%s/%s' % (dv[0], kind), case, dv[1] + ' (seeded %s schedule%s)' % (
+                policy, ', statement granularity' if line_level else '')))
         hk = history_key(run['events'])
         if hk not in res['hist']:
             res['hist'][hk] = case
@@ -178,7 +183,8 @@ def replay(case):
     if case.get('random'):
         rng = random.Random(case['rseed'])
         prog = random_program(rng, case['kind'])
-        run = portrun.run_program(case['kind'], [], prog, rng=rng, policy=case['policy'])
+        run = portrun.run_program(case['kind'], [], prog, rng=rng, policy=case['policy'],
+                                  line_level=case.get('line_level', False))
     else:
         run = portrun.run_program(case['kind'], case['initq'], case['prog'], schedule=case['schedule'])
     dv = portrun.direct_verdict(run)
@@ -222,13 +228,18 @@ def run(ctx):
     n = 6000 if thorough else 500
     jobs = [(rng.choice(['echo', 'device', 'ioport', 'multi', 'pqueue']), rng.randrange(1 << 30),
              rng.choice(['random', 'pct'])) for _ in range(n)]
+    # the same kind of programs with a thread switch possible at EVERY statement of
+    # ports.py / parser.py / tokenizer.py / _parser_queue.py (sys.settrace)
+    nl = 2500 if thorough else 160
+    jobs += [(rng.choice(['echo', 'device', 'ioport', 'multi', 'pqueue']), rng.randrange(1 << 30),
+              rng.choice(['random', 'pct']), True) for _ in range(nl)]
     col2 = Collect(ctx, random_worker, batch_size=1)
     col2.map(list(core.chunks(jobs, 50)))
     validate_histories(ctx, col2.hist, 'PortTrace: histories of seeded random/PCT schedules')
-    ctx.constants = {'scenarios': scen, 'random_programs': n}
+    ctx.constants = {'scenarios': scen, 'random_programs': n, 'statement_granularity_programs': nl}
     ctx.exhaustive = True
     ctx.assumptions += [
-        'threads switch only at shared-state accesses (lock, deque, wire, sleep); line-granularity switching is not explored',
+        'the TLC-enumerated schedules switch threads at shared-state accesses (lock, deque, wire, sleep); statement-granularity switching (sys.settrace) is sampled with seeded schedules, not enumerated',
         'the lock-protected device port is a double written as docs/ports/custom.rst describes (byte-wise loopback wire)',
         'verdicts are taken at property level (PortCore); divergence from PortImpl is only counted',
     ]
